@@ -1309,6 +1309,30 @@ pub fn c10(v: &View) -> Vec<Violation> {
         let deadline = s + t as u64;
         let joined_t = v.actors[o.a].joined.as_ref().map(|j| j.1);
         let h = v.handlers.get(&mid).map(|h| &h[0]);
+        if how.late().is_some() {
+            // busy caller: the instant of return says nothing (the caller polled late), and a reply
+            // that arrived after the deadline but before the caller looked again is legitimately
+            // returned as Ok (the property quantifies over completion times, not over callers that
+            // do not poll; tokio's timeout checks the operation first). What must hold: Timeout is
+            // never reported when the reply (or a failure) was there strictly before the deadline.
+            let completed = h.and_then(|h| h.e_t).filter(|_| h.map(|h| h.out != Some(Out::Panic)).unwrap_or(false));
+            match &o.res {
+                Some(Res::ErrTimeout) => {
+                    if let Some(c) = completed {
+                        if c < deadline {
+                            out.push(viol("C10", "timeout-although-completed", format!("{how:?} of message {mid} (busy caller, polled again at t={:?}): the reply was produced at t={c} < deadline t={deadline}, yet Timeout", o.e_t)));
+                        }
+                    }
+                    if let Some(jt) = joined_t {
+                        if jt < deadline && jt >= s {
+                            out.push(viol("C10", "timeout-masks-failure", format!("{how:?} of message {mid} (busy caller): the actor ended at t={jt} < deadline t={deadline}, yet Timeout was reported")));
+                        }
+                    }
+                }
+                _ => {}
+            }
+            continue;
+        }
         match (&o.res, o.e_t) {
             (None, _) | (_, None) => {
                 // still pending: only legitimate if the deadline lies beyond the observed horizon
